@@ -229,3 +229,79 @@ fn c07_o5_referrals_merged() {
     std::mem::forget(out);
     std::mem::forget(core);
 }
+
+//@ ob: C08.O5
+//@ tier: thorough
+//@ cap: 2400
+//@ mem: 20
+//@ standins: tracing lru vcoll
+//@ also: C18 C09
+//@ desc: acknowledgements and errors are credited only to the put that owns the transaction id, and never when the reply is flagged read-only: with two puts in flight (different targets, one request each) and a reply (ping-shaped ack or error with any code; tid of put A, of put B or of neither; read-only flag symbolic), exactly the owning put's counters move -- ack: acknowledgements + 1; error: that code tallied once -- and only if the reply is not read-only; every other put is untouched; nothing is surfaced and nothing is offered to the routing table for a put reply
+//@ bounds: two PutQuery objects (announce_peer for T5, put_immutable for T6) with one tracked tid each; one reply; symbolic kind / tid choice / read-only bit / i32 error code; no lookups active; unwind 8
+//@ stubs: RoutingTable::add -> probe counting calls; other kinds' validators -> flagged cuts; Instant::now; getrandom::fill
+//@ functions: Core::handle_response (read-only guard, put dispatch), PutQuery::{inflight,success,error}
+#[kani::proof]
+#[kani::stub(crate::common::immutable::validate_immutable, vi_cut)]
+#[kani::stub(crate::common::mutable::MutableItem::from_dht_message, mh::from_dht_message_cut)]
+#[kani::stub(crate::common::signed_announce::SignedAnnounce::from_dht_response, sh::from_dht_cut)]
+#[kani::stub(crate::common::routing_table::RoutingTable::add, rt_add_probe)]
+#[kani::stub(std::time::Instant::now, clock::now)]
+#[kani::stub(getrandom::fill, rnd::fill)]
+#[kani::unwind(8)]
+fn c08_o5_put_replies_credited_to_owner() {
+    use crate::common::{AnnouncePeerRequestArguments, PutImmutableRequestArguments, PutRequestSpecific};
+    use crate::core::PutQuery;
+    clock::set(0);
+    let mut core = new_core(false, Vec::with_capacity(1));
+    let ta = Id::from([5u8; 20]);
+    let tb = Id::from([6u8; 20]);
+    let mut qa = PutQuery::new(PutRequestSpecific::AnnouncePeer(AnnouncePeerRequestArguments { info_hash: ta, port: 1, implied_port: None }), None);
+    qa.kani_track(7);
+    let mut qb = PutQuery::new(PutRequestSpecific::PutImmutable(PutImmutableRequestArguments { target: tb, v: Box::new([7]) }), None);
+    qb.kani_track(9);
+    core.put_queries.insert(ta, qa);
+    core.put_queries.insert(tb, qb);
+    let which: u8 = kani::any();
+    kani::assume(which < 3);
+    let tid = match which { 0 => 7u32, 1 => 9, _ => 11 };
+    let ro: bool = kani::any();
+    let is_err: bool = kani::any();
+    let code: i32 = kani::any();
+    let from = SocketAddrV4::new([10, 0, 0, 9].into(), 6881);
+    let mt = if is_err {
+        MessageType::Error(ErrorSpecific { code, description: String::new() })
+    } else {
+        MessageType::Response(ResponseSpecific::Ping(PingResponseArguments { responder_id: Id::from([9u8; 20]) }))
+    };
+    let msg = Message { transaction_id: tid, version: None, requester_ip: None, read_only: ro, message_type: mt };
+    let out = core.handle_response(from, msg);
+    assert!(out.is_none(), "C08.O5 a reply to a put surfaces no lookup response");
+    let a = core.put_queries.get(&ta).unwrap();
+    let b = core.put_queries.get(&tb).unwrap();
+    let (a_acks, a_errs) = (a.kani_acks(), a.kani_errors());
+    let (b_acks, b_errs) = (b.kani_acks(), b.kani_errors());
+    let credit_a = which == 0 && !ro;
+    let credit_b = which == 1 && !ro;
+    assert!(a_acks == (credit_a && !is_err) as usize, "C08.O5/C18.O4 an ack is credited exactly to the owning put, never from a read-only reply");
+    assert!(b_acks == (credit_b && !is_err) as usize, "C08.O5/C18.O4 an ack is credited exactly to the owning put, never from a read-only reply");
+    if credit_a && is_err {
+        assert!(a_errs == (1, 1, code), "C08.O5 an error is tallied once, with its code, for the owning put");
+    } else {
+        assert!(a_errs.0 == 0, "C08.O5/C18.O4 an error is tallied only for the owning put, never from a read-only reply");
+    }
+    if credit_b && is_err {
+        assert!(b_errs == (1, 1, code), "C08.O5 an error is tallied once, with its code, for the owning put");
+    } else {
+        assert!(b_errs.0 == 0, "C08.O5/C18.O4 an error is tallied only for the owning put, never from a read-only reply");
+    }
+    if ro || which == 2 {
+        assert!(unsafe { RT_ADDS.v } == 0, "C09/C18.O4 replies that are read-only or match no in-flight request teach nothing");
+    }
+    assert!(!cut_reached(), "CUT: a lookup validator reached for a put reply");
+    kani::cover!(credit_a && !is_err);
+    kani::cover!(credit_b && is_err && code == 301);
+    kani::cover!(ro && which == 0);
+    kani::cover!(which == 2);
+    std::mem::forget(out);
+    std::mem::forget(core);
+}
